@@ -327,6 +327,77 @@ def close_cases():
     return out
 
 
+# -- the edge of the region in which the near-parabolic series converges ------------------------------------------
+
+EDGE_ORBITS = [(0.3, 0.985), (0.1, 0.98), (1.0, 0.99), (3.0, 0.995), (0.3, 0.9999)]
+
+
+def edge_cases():
+    """For near-parabolic orbits the library's series stops converging some time before perihelion (finding
+    C09-d).  The edge is located by bisection on the series routine itself; the inbound instants 0.05 .. 3 light
+    times inside it are where the position for the epoch can be had but the one for the retarded instant cannot:
+    the call must either refuse (listed in C09-d/edge) or return the right direction - never the un-retarded one."""
+    out = []
+    orient = (11.94524, 334.75006, 186.23352)
+    for q, ecc in EDGE_ORBITS:
+        try:
+            mb = Minor(q, ecc, Angle(orient[0]), Angle(orient[1]), Angle(orient[2]), Epoch(*T_PERI))
+
+            def conv(t):
+                try:
+                    mb._near_parabolic(-t)
+                    return True
+                except ValueError:
+                    return False
+            lo, hi = 1.0, 2.0
+            while conv(hi) and hi < 1e6:
+                lo, hi = hi, hi * 2.0
+            if hi >= 1e6 or not conv(lo):
+                continue
+            while hi - lo > 1e-9 * hi:
+                mid = (lo + hi) / 2.0
+                if conv(mid):
+                    lo = mid
+                else:
+                    hi = mid
+        except Exception:
+            continue
+        xs, ys, zs = sun_vector_j2000(Epoch(*T_PERI) + (-lo))
+        H = TB.helio_equ(q, ecc, orient[0], orient[1], orient[2], -lo)
+        tau = 0.0057755183 * math.sqrt((H[0] + xs) ** 2 + (H[1] + ys) ** 2 + (H[2] + zs) ** 2)
+        for x in (0.05, 0.3, 0.6, 0.95, 1.05, 1.5, 3.0):
+            out.append({"q": q, "e": ecc, "orient": list(orient), "dt": -lo + x * tau, "gap": x, "edge": lo,
+                        "light_time": tau})
+    return out
+
+
+def polar_cases():
+    """Orbits whose perihelion (reached at the perihelion date) lies, as seen from the Earth, 1e-6 .. 0.7 degree
+    from the north or the south celestial pole: the declination formulas near their ends."""
+    out = []
+    for tp in ((1998, 4, 14.4358), (2013, 7, 5.5)):
+        xs, ys, zs = Sun.rectangular_coordinates_j2000(Epoch(*tp))
+        E = (-xs, -ys, -zs)
+        for dec in (89.3, 89.9, 89.99, 90.0 - 1e-6):
+            for sg in (1.0, -1.0):
+                for ra in (0.0, 100.0, 250.0):
+                    for dist in (0.5, 2.0):
+                        d, a = math.radians(sg * dec), math.radians(ra)
+                        n = (math.cos(d) * math.cos(a), math.cos(d) * math.sin(a), math.sin(d))
+                        Pq = [E[k] + dist * n[k] for k in range(3)]
+                        # equatorial J2000 -> ecliptic J2000
+                        x, y, z = Pq[0], Pq[1] * TB.CE + Pq[2] * TB.SE, -Pq[1] * TB.SE + Pq[2] * TB.CE
+                        q = math.sqrt(x * x + y * y + z * z)
+                        L = math.degrees(math.atan2(y, x)) % 360.0
+                        B = math.degrees(math.asin(z / q))
+                        orient = (abs(B), (L - 90.0) % 360.0, 90.0) if B >= 0 else (abs(B), (L + 90.0) % 360.0, 270.0)
+                        for ecc in (0.3, 0.985, 1.0):
+                            for dt in (0.0, 0.5, -0.5):
+                                out.append({"q": q, "e": ecc, "orient": list(orient), "dt": dt, "T": list(tp),
+                                            "gap": dist, "target_dec": sg * dec})
+    return out
+
+
 # -- one Minor object and one Epoch object re-used over a history ------------------------------------
 
 H_ORBITS = {"A": (2.2091404, 0.8502196, 11.94524, 334.75006, 186.23352),      # Encke-like
@@ -409,7 +480,7 @@ def run_close(block, ctx):
         res = check_minor(case)
         for site, msg, dev in res:
             ctx.viol(dict(case, i=case["orient"][0]), msg, dev=dev, site=site)
-        if case["gap"] <= 0.08:
+        if case["gap"] <= 0.08 or "target_dec" in case or "edge" in case:
             ctx.nt_count += 1
         ctx.outcome((case["e"], case["gap"], len(res)))
         ctx.obs(case, len(res))
@@ -682,6 +753,10 @@ def clauses(tier):
                lambda c: [m for _, m, _ in check_minor(c)], floor=500),
         Clause("minor_close_approach", chunks(close_cases(), 16), run_close,
                lambda c: [m for _, m, _ in check_minor(c)], floor=200),
+        Clause("minor_polar_directions", chunks(polar_cases(), 16), run_close,
+               lambda c: [m for _, m, _ in check_minor(c)], floor=200),
+        Clause("minor_convergence_edge", chunks(edge_cases(), 8), run_close,
+               lambda c: [m for _, m, _ in check_minor(c)], floor=10),
         Clause("minor_perihelion_returns", chunks(return_cases(), 16), run_minor,
                lambda c: [m for _, m, _ in check_minor(c)], floor=100),
         Clause("minor_far_epochs", chunks(far_cases(), 8), run_minor,
